@@ -14,6 +14,7 @@ CONSTANTS
   BadPkR = "none"
   Shape = "all"
   SweepMax = 0
+  SweepExtra = {}
   Emit = FALSE
   EmitWiring = FALSE
   Ordered = TRUE
